@@ -24,3 +24,34 @@ Theorem C05_each_position_once : forall (r : Runner) (len : nat) (stop : nat -> 
   runner_wf r -> all_done (mrun r len stop sched) -> NoDup (flat_map seen (ws (mrun r len stop sched))).
 Proof. intros r len stop sched Hw Hd. apply (O_disjoint (mrun_outcome Hw len stop sched Hd)). Qed.
 Print Assumptions C05_each_position_once.
+
+From OrxPar Require Import MachineIter MachineIterP MasterIter.
+
+(** By-value iterator sources (ConIterOfIter and ConIterOfIterX): in every reachable state of
+    every schedule -- whatever is spinning on the handle, whatever panics -- at most one thread is
+    inside the user's iterator ... *)
+Theorem C05_source_mutual_exclusion : forall (r : Runner) (srclen : nat) (ordered : bool)
+  (stop panics : nat -> bool) (sched : list nat),
+  runner_wf r -> readers (iws (imrunp r srclen ordered stop panics sched)) <= 1.
+Proof. intros r srclen ordered stop panics sched Hw. apply imrun_mutual_exclusion; assumption. Qed.
+Print Assumptions C05_source_mutual_exclusion.
+
+(** ... the reader holding ticket [t] that has read [got] elements sits exactly at source
+    position [t + got]: every element the iterator yields goes to exactly one worker, under its
+    true position ... *)
+Theorem C05_source_positions : forall (r : Runner) (srclen : nat) (ordered : bool)
+  (stop panics : nat -> bool) (sched : list nat) w t got,
+  runner_wf r -> In w (iws (imrunp r srclen ordered stop panics sched)) -> iph w = IReading t got ->
+  ifront (imrunp r srclen ordered stop panics sched) = t + got.
+Proof. intros r srclen ordered stop panics sched w t got Hw. apply imrun_reader_positions; assumption. Qed.
+Print Assumptions C05_source_positions.
+
+(** ... and full terminals over an iterator source make exactly the sequential calls. *)
+Theorem C05_calls_full_iter : forall (V : Type) (src : list V) (ops : list (op V)) (r : Runner)
+  (ordered : bool) (sched : list nat),
+  runner_wf r -> iall_done (imrun r (tlen src ops) ordered (@nostop) sched) ->
+  Permutation (ps_clog (build src ops) ++
+               flat_map (w_calls_full (tpe src ops)) (map wk (iws (imrun r (tlen src ops) ordered (@nostop) sched))))
+              (seq_log (stages_of ops) src).
+Proof. intros V src ops r ordered sched Hw Hd. apply iter_calls; assumption. Qed.
+Print Assumptions C05_calls_full_iter.
